@@ -7,6 +7,7 @@
   ["if", c, t, e]  ["min", a, ...]  ["max", a, ...]
   ["sub", agg, idx]          subscript
   ["call", fname, [args], {kw: expr}]   (Call if no kwargs else CallWithKwargs)
+  ["attr:NAME", agg]         attribute lookup agg.NAME (real, imag, size)
 """
 import itertools
 
@@ -46,6 +47,8 @@ def build(d):
         return p.Max(tuple(build(x) for x in d[1:]))
     if k == "sub":
         return p.Subscript(build(d[1]), build(d[2]))
+    if k.startswith("attr:"):
+        return p.Lookup(build(d[1]), k[5:])
     if k == "call":
         args = tuple(build(x) for x in d[2])
         kw = d[3] if len(d) > 3 else {}
@@ -126,6 +129,8 @@ def to_dsl(e):
                 raise ValueError("multi-index")
             idx = idx[0]
         return ["sub", to_dsl(e.aggregate), to_dsl(idx)]
+    if n == "Lookup":
+        return ["attr:" + e.name, to_dsl(e.aggregate)]
     if n == "Call":
         return ["call", e.function.name, [to_dsl(x) for x in e.parameters], {}]
     if n == "CallWithKwargs":
@@ -221,7 +226,7 @@ class Gen:
         if depth <= 0:
             return self.leaf_num()
         choices = [o for o in ("+", "*", "/", "**", "if", "min", "max", "call",
-                               "callkw", "sub", "leaf", "//", "%") if o in self.ops or o == "leaf"]
+                               "callkw", "sub", "leaf", "//", "%", "attr") if o in self.ops or o == "leaf"]
         o = self.rng.choice(choices)
         if o == "leaf":
             return self.leaf_num()
@@ -246,6 +251,13 @@ class Gen:
             if not self.arrays:
                 return self.leaf_num()
             return ["sub", ["v", self.rng.choice(self.arrays)], self.num(depth - 1)]
+        if o == "attr":
+            # opt-in (not in the default operator set): z.real / z.imag of a scalar variable, v.size of an array
+            if self.arrays and self.rng.random() < 0.3:
+                return ["attr:size", ["v", self.rng.choice(self.arrays)]]
+            if not self.vars_num:
+                return self.leaf_num()
+            return ["attr:" + self.rng.choice(["real", "imag"]), ["v", self.rng.choice(self.vars_num)]]
         raise AssertionError(o)
 
     def boolean(self, depth):
